@@ -76,8 +76,9 @@ deriving DecidableEq, Repr
 def inInt64 (i : Int) : Bool :=
   decide (-9223372036854775808 ≤ i) && decide (i ≤ 9223372036854775807)
 
-/-- JSON: the guard of `FloatExp.appendJSON`, `i := int64(v); float64(i) == v`
-(on amd64 an out-of-range conversion yields -2^63, so +2^63 is excluded and
+/-- JSON: the guard of `FloatExp.appendJSON`: `-2^63 ≤ v < 2^63` and then
+`i := int64(v); float64(i) == v` (the range is checked first, so the
+implementation-defined out-of-range conversion never happens; +2^63 is excluded,
 -2^63 included): the value is integral and fits int64.  Includes ±0. -/
 def Flt.jsonAsInt (f : Flt) : Bool :=
   f.m == 0 || (decide (0 ≤ f.e) && inInt64 f.intVal)
